@@ -145,6 +145,15 @@ Theorem C15_nonpositive_ttl_removed :
     forall n, key_of i = KSvc n -> n <> 0 -> ttl <= 0 -> sv_get n (svcs st') = None.
 Proof. exact nonpositive_ttl_removed_pf. Qed.
 
+(* an answered registration at or above the reported minimum is recorded, with the lease it asked for (services other than
+   gc_worker): a write that was not committed must therefore not be acknowledged (seeded C15-12) *)
+Theorem C15_acknowledged_registration_is_recorded :
+  forall st i ttl sp now st' r, wf_svcs (svcs st) -> 0 <= sp -> now <= maxI64 ->
+    svc_update st i ttl sp now = (st', Some r) ->
+    forall n, key_of i = KSvc n -> n <> 0 -> 0 < ttl -> r_sp r <= sp ->
+      sv_get n (svcs st') = Some (Entry (text_of i) (exp_of now ttl) sp).
+Proof. exact acknowledged_is_recorded_pf. Qed.
+
 (* ---- clauses 2, 4, 5 when something slips into UpdateServiceGCSafePoint's locked section: the REST delete takes no
         server lock, so it can remove the (clean, non-gc_worker) services d between LoadMin and the request's own save;
         and that save may fail (ErrNotApplied) or be applied although the handler sees an error (ErrApplied) ---- *)
@@ -239,3 +248,4 @@ Print Assumptions C15_load_min_under_faults_and_rest_deletes.
 Print Assumptions C15_service_update_under_faults_and_rest_deletes.
 Print Assumptions C15_expired_removed.
 Print Assumptions C15_nonpositive_ttl_removed.
+Print Assumptions C15_acknowledged_registration_is_recorded.
